@@ -206,6 +206,7 @@ Proof.
   - destruct (Nat.eqb (ds_of s) 2); eexists; reflexivity.
   - destruct (Nat.eqb (ds_of s) 2); eexists; reflexivity.
   - destruct (Nat.eqb (ds_of s) 1); eexists; reflexivity.
+  - destruct (ds_of s) as [|[|?]]; [destruct (Nat.eqb a 0)| |]; eexists; reflexivity.
 Qed.
 
 (* ------------------------------------------------------------------ *)
@@ -217,7 +218,7 @@ Ltac pose_counts H :=
   pose proof (H SStore); pose proof (H SSpawn); pose proof (H SCas); pose proof (H SUnlock);
   pose proof (H DTry); pose proof (H DCas); pose proof (H DLock); pose proof (H CLock);
   pose proof (H MStore); pose proof (H MDrain); pose proof (H MLoad); pose proof (H MCas);
-  pose proof (H MStoreReq); pose proof (H MUnlock); pose proof (H RLoad); pose proof (H Done).
+  pose proof (H MStoreReq); pose proof (H MUnlock); pose proof (H RLoad); pose proof (H Done); pose proof (H RdLoad).
 
 Ltac simp_counts := cbn [b2n pceq pc_to_nat Nat.eqb tok0 fst snd orb andb] in *.
 
@@ -351,6 +352,12 @@ Proof.
     + simple_step Hi SLoad a. finish HI Hi.
     + simple_step Hi Done a. finish HI Hi.
   - (* Done *) discriminate.
+  - (* RdLoad *)
+    destruct ds as [|[|ds]]; [destruct (Nat.eqb a 0)| |]; intros E; injection E as <-.
+    + simple_step Hi Done a. finish HI Hi.
+    + simple_step Hi SLoad a. finish HI Hi.
+    + simple_step Hi SLoad a. finish HI Hi.
+    + simple_step Hi Done a. finish HI Hi.
 Qed.
 
 (* ------------------------------------------------------------------ *)
@@ -371,6 +378,22 @@ Proof.
   split; [lia|]. split; [lia|]. split; [lia|]. split; [lia|]. split; [lia|]. split; [lia|].
   intros i a Hi. exfalso.
   apply nth_error_In in Hi. apply in_app_or in Hi. destruct Hi as [Hi|Hi]; apply repeat_spec in Hi; discriminate Hi.
+Qed.
+
+Lemma CInv_initR w c rd rf : CInv (dinitR w c rd rf).
+Proof.
+  unfold CInv, dinitR. cbn [ds_of lock_of wb_of ths_of mk fst snd].
+  set (l := repeat (WPush, 0) w ++ repeat (CLock, 0) c ++ repeat (RdLoad, 0) rd ++ repeat (RdLoad, 1) rf).
+  assert (Hn : forall q, n_ l q = w * b2n (pceq WPush q) + c * b2n (pceq CLock q) + rd * b2n (pceq RdLoad q) + rf * b2n (pceq RdLoad q)).
+  { intros q. unfold n_, l. rewrite !cnt_app, !cnt_repeat. unfold at_pc. cbn [fst]. lia. }
+  assert (Ht : ntok0 l = 0).
+  { unfold ntok0, l. rewrite !cnt_app, !cnt_repeat. cbn [tok0 fst snd pceq pc_to_nat Nat.eqb orb andb b2n]. lia. }
+  unfold n_owner, n_mid, n_A, n_W1, n_C. rewrite !Hn, Ht.
+  cbn [b2n pceq pc_to_nat Nat.eqb].
+  split; [lia|]. split; [lia|]. split; [lia|]. split; [lia|]. split; [lia|]. split; [lia|].
+  intros i a Hi. exfalso. apply nth_error_In in Hi. unfold l in Hi.
+  repeat (apply in_app_or in Hi; destruct Hi as [Hi|Hi]; [apply repeat_spec in Hi; discriminate Hi|]).
+  apply repeat_spec in Hi. discriminate Hi.
 Qed.
 
 Theorem CInv_reachable w c s : reachable (dinit w c) s -> CInv s.
@@ -434,7 +457,7 @@ Proof.
   { intros q Hq. unfold n_. apply cnt_zero. intros j [p a] Hj. unfold at_pc. cbn [fst].
     rewrite (Hdone j p a Hj). destruct (pceq Done q) eqn:E; [|reflexivity]. apply pceq_eq in E. subst q. contradiction. }
   unfold n_A, n_W1, n_C in *.
-  pose proof (Hz WPush ltac:(discriminate)). pose proof (Hz WLoad ltac:(discriminate)). pose proof (Hz WCasReq ltac:(discriminate)). pose proof (Hz WCasP2R ltac:(discriminate)). pose proof (Hz SLoad ltac:(discriminate)). pose proof (Hz STry ltac:(discriminate)). pose proof (Hz SLoad2 ltac:(discriminate)). pose proof (Hz SUnlockRet ltac:(discriminate)). pose proof (Hz SStore ltac:(discriminate)). pose proof (Hz SSpawn ltac:(discriminate)). pose proof (Hz SCas ltac:(discriminate)). pose proof (Hz SUnlock ltac:(discriminate)). pose proof (Hz DTry ltac:(discriminate)). pose proof (Hz DCas ltac:(discriminate)). pose proof (Hz DLock ltac:(discriminate)). pose proof (Hz CLock ltac:(discriminate)). pose proof (Hz MStore ltac:(discriminate)). pose proof (Hz MDrain ltac:(discriminate)). pose proof (Hz MLoad ltac:(discriminate)). pose proof (Hz MCas ltac:(discriminate)). pose proof (Hz MStoreReq ltac:(discriminate)). pose proof (Hz MUnlock ltac:(discriminate)). pose proof (Hz RLoad ltac:(discriminate)).
+  pose proof (Hz WPush ltac:(discriminate)). pose proof (Hz WLoad ltac:(discriminate)). pose proof (Hz WCasReq ltac:(discriminate)). pose proof (Hz WCasP2R ltac:(discriminate)). pose proof (Hz SLoad ltac:(discriminate)). pose proof (Hz STry ltac:(discriminate)). pose proof (Hz SLoad2 ltac:(discriminate)). pose proof (Hz SUnlockRet ltac:(discriminate)). pose proof (Hz SStore ltac:(discriminate)). pose proof (Hz SSpawn ltac:(discriminate)). pose proof (Hz SCas ltac:(discriminate)). pose proof (Hz SUnlock ltac:(discriminate)). pose proof (Hz DTry ltac:(discriminate)). pose proof (Hz DCas ltac:(discriminate)). pose proof (Hz DLock ltac:(discriminate)). pose proof (Hz CLock ltac:(discriminate)). pose proof (Hz MStore ltac:(discriminate)). pose proof (Hz MDrain ltac:(discriminate)). pose proof (Hz MLoad ltac:(discriminate)). pose proof (Hz MCas ltac:(discriminate)). pose proof (Hz MStoreReq ltac:(discriminate)). pose proof (Hz MUnlock ltac:(discriminate)). pose proof (Hz RLoad ltac:(discriminate)). pose proof (Hz RdLoad ltac:(discriminate)).
   assert (ds = 0) by lia. subst ds. assert (wb = 0) by lia. subst wb.
   unfold drained. cbn [ds_of lock_of wb_of ths_of fst snd Nat.eqb negb andb].
   rewrite !andb_true_r. unfold all_done. apply forallb_forall. intros [p a] Hin.
@@ -447,4 +470,17 @@ Theorem drained_any_population w c : forall sched,
 Proof.
   intros sched s T. apply CInv_terminal_drained; [|exact T].
   apply (CInv_reachable w c). apply run_sched_reachable. constructor.
+Qed.
+
+Theorem CInv_reachableR w c rd rf s : reachable (dinitR w c rd rf) s -> CInv s.
+Proof.
+  intros R. induction R as [|s i s' R IH Hs]; [apply CInv_initR|]. exact (CInv_step s i s' IH Hs).
+Qed.
+
+(* ... and with any number of readers (whose read was buffered, or found the read buffer full) *)
+Theorem drained_any_population_with_readers w c rd rf : forall sched,
+  let s := run_sched (dinitR w c rd rf) sched in terminal s = true -> drained s = true.
+Proof.
+  intros sched s T. apply CInv_terminal_drained; [|exact T].
+  apply (CInv_reachableR w c rd rf). apply run_sched_reachable. constructor.
 Qed.
